@@ -55,7 +55,7 @@ static int est64(double fvalue){ int expon; expon = log(fvalue)/log(2.0); return
 static int is_nan32(uint32_t b){ return (b & 0x7f800000u)==0x7f800000u && (b & 0x007fffffu); }
 static int is_nan64(uint64_t b){ return (b & 0x7ff0000000000000ull)==0x7ff0000000000000ull && (b & 0x000fffffffffffffull); }
 
-#define MAXRUN 48
+#define MAXRUN 1024
 typedef struct { uint64_t lo, hi, cnt; } run_t;
 typedef struct { run_t r[MAXRUN]; int n; uint64_t total; int open; } runs_t;
 static void runs_add(runs_t *R, int bad, uint64_t p){
